@@ -2,6 +2,7 @@ package main
 
 import (
 	"bytes"
+	"context"
 	"flag"
 	"fmt"
 	"os"
@@ -1033,6 +1034,10 @@ func (g *c15Gen) program(mode c15Mode, multiPkg, shufflePkgs bool) *c15Prog {
 		prog.Pkgs = append(prog.Pkgs, p)
 	}
 	m := g.bodyFor(mode, 5+r.intn(8))
+	if (mode == c15MainSorted || mode == c15MainPlain) && r.chance(18) {
+		// a package without package-level variables: only functions, init functions, main
+		m = &c15Pkg{NFiles: 1 + r.intn(2)*r.intn(2), Grouped: map[int]bool{}, Blank: map[int]bool{}, Shape: map[int]int{}}
+	}
 	m.ID, m.Main = 90, true
 	g.decls(m)
 	prog.Entry = 90
@@ -1624,6 +1629,79 @@ func c15RunPath(files map[string]string, prefix string, timeout time.Duration) (
 	}
 }
 
+// History of the interpreter before the program is evaluated: the order of initialisation must not depend on it.
+var c15Histories = []string{"fresh interpreter", "after a successful evaluation", "after an evaluation cancelled by its context",
+	"after an evaluation that does not compile", "after an evaluation that panicked"}
+
+// c15RunHistory evaluates the program (Eval of the single file, or EvalPath on the MapFS tree) on an interpreter with
+// the given history. No real-time bound matters: the cancelled evaluation blocks for ever and is cancelled whenever the
+// timer fires.
+func c15RunHistory(files map[string]string, prefix string, viaPath bool, hist int, timeout time.Duration) (res outcome) {
+	mfs := fstest.MapFS{}
+	for fn, src := range files {
+		mfs["src/"+prefix+"/"+fn] = &fstest.MapFile{Data: []byte(src)}
+	}
+	var stdout, stderr bytes.Buffer
+	done := make(chan outcome, 1)
+	go func() {
+		var r outcome
+		defer func() {
+			if p := recover(); p != nil {
+				r.Stdout = stdout.String()
+				r.End = "host-crash:" + fmt.Sprint(p)
+			}
+			done <- r
+		}()
+		i := interp.New(interp.Options{GoPath: ".", SourcecodeFilesystem: mfs, Stdout: &stdout, Stderr: &stderr})
+		if err := i.Use(stdlib.Symbols); err != nil {
+			r.End = "host-crash:use:" + err.Error()
+			return
+		}
+		switch hist {
+		case 1:
+			if _, err := i.Eval("1 + 1"); err != nil {
+				r.End = "host-crash:prelude:" + err.Error()
+				return
+			}
+		case 2:
+			ctx, cancel := context.WithTimeout(context.Background(), 30*time.Millisecond)
+			_, err := i.EvalWithContext(ctx, "c := make(chan int)\n<-c") // blocks for ever without using a processor
+			cancel()
+			if err == nil {
+				r.End = "host-crash:prelude: endless loop returned"
+				return
+			}
+		case 3:
+			if _, err := i.Eval("func ("); err == nil {
+				r.End = "host-crash:prelude: syntax error accepted"
+				return
+			}
+		case 4:
+			if _, err := i.Eval("panic(1)"); err == nil {
+				r.End = "host-crash:prelude: panic not reported"
+				return
+			}
+		}
+		stdout.Reset()
+		var err error
+		if viaPath {
+			_, err = i.EvalPath(prefix)
+		} else {
+			ctx, cancel := context.WithTimeout(context.Background(), timeout)
+			defer cancel()
+			_, err = i.EvalWithContext(ctx, files["a.go"])
+		}
+		r.Stdout = stdout.String()
+		r.End = yaegiEnd(err)
+	}()
+	select {
+	case r := <-done:
+		return r
+	case <-time.After(timeout + 10*time.Second):
+		return outcome{Stdout: stdout.String(), End: "timeout"}
+	}
+}
+
 // ---------------------------------------------------------------- driver
 
 func runC15(args []string) error {
@@ -1658,6 +1736,7 @@ func runC15(args []string) error {
 		yaegi   c15Obs
 		ref     c15Obs
 		viaPath bool
+		hist    int
 	}
 	cases := make([]*c15Case, n)
 	wit := c15Witnesses()
@@ -1701,6 +1780,12 @@ func runC15(args []string) error {
 		}
 		c.region = c.prog.region()
 		c.files = c.prog.sources("ref/" + c.name)
+		if g.r.chance(55) {
+			c.hist = 1 + g.r.intn(len(c15Histories)-1)
+			if g.r.chance(40) {
+				c.hist = 2
+			}
+		}
 		cases[i] = c
 	}
 
@@ -1722,6 +1807,13 @@ func runC15(args []string) error {
 			r = c15RunPath(c.files, "ref/"+c.name, 30*time.Second)
 		}
 		c.yaegi = c15Observe(r, c15Loop)
+		if c.yaegi.Odd == "" && c.hist != 0 {
+			// the same program on an interpreter with a history must be initialised in the same order
+			r2 := c15RunHistory(c.files, "ref/"+c.name, c.viaPath, c.hist, 30*time.Second)
+			if o2 := c15Observe(r2, c15Loop); o2.key() != c.yaegi.key() {
+				c.yaegi = c15Obs{Odd: "fresh interpreter vs " + c15Histories[c.hist] + ": " + c.yaegi.key() + " / " + r2.End + " stdout=" + r2.Stdout}
+			}
+		}
 	})
 
 	// reference: compiled Go, in batches
@@ -1761,6 +1853,22 @@ func runC15(args []string) error {
 		}
 		if !c.yaegi.OK {
 			sm.count("yaegi:rejected-or-odd")
+		}
+		{
+			vars := "with package variables"
+			if len(c.prog.find(c.prog.Entry).Specs) == 0 {
+				vars = "without package variables"
+				for _, d := range c.prog.find(c.prog.Entry).Decls {
+					if d.Kind == 'V' {
+						vars = "with package variables"
+					}
+				}
+			}
+			via := "Eval"
+			if c.viaPath {
+				via = "EvalPath"
+			}
+			sm.count("history:" + c15Histories[c.hist] + ", entry package " + vars + ", " + via)
 		}
 		seenKinds := map[string]bool{}
 		for _, p := range c.prog.Pkgs {
